@@ -81,7 +81,7 @@ fn cases(tier: Tier) -> &'static Vec<Case> {
     let cell = if !full(tier) { &Q } else { &T };
     cell.get_or_init(|| {
         let mut v = Vec::new();
-        let max_len = if full(tier) { 4 } else { 3 };
+        let max_len = if deep(tier) { 5 } else { 4 };
         for (class, bad) in bad_requests(tier) {
             for len in 1..=max_len {
                 for pos in 0..len {
